@@ -319,6 +319,19 @@ template <typename T, typename C> static std::string diff_extra(hep::multi_chann
     return "";
 }
 
+// the stored generators, for checkpoint types that have them (the base types plain_chkpt<T>, vegas_chkpt<T> and
+// multi_channel_chkpt<T> are checkpoints of their own right, without generators)
+template <typename C>
+static auto diff_generator(C const& chk, C const& back, int) -> decltype(chk.generator(), std::string())
+{
+    auto g1 = chk.generator(), g2 = back.generator();
+    if (!(g1 == g2)) return "generator";
+    for (int k = 0; k != 32; ++k) if (g1() != g2()) return "generator output";
+    return "";
+}
+template <typename C>
+static std::string diff_generator(C const&, C const&, long) { return ""; }
+
 // round trip of one checkpoint object; `make_back` constructs the same type from a stream
 template <typename C, typename Back>
 static void round_trip(report& r, C const& chk, Back&& make_back, std::string const& id)
@@ -327,9 +340,11 @@ static void round_trip(report& r, C const& chk, Back&& make_back, std::string co
     std::ostringstream out;
     chk.serialize(out);
     std::istringstream in(out.str());
-    C back = make_back(in);
     std::string d;
-    if (in.fail()) d = "stream failed";
+    C back = chk;
+    try { back = make_back(in); }
+    catch (std::exception const& e) { d = std::string("reader threw (") + e.what() + ")"; }
+    if (d.empty() && in.fail()) d = "stream failed";
     if (d.empty())
     {
         in >> std::ws;
@@ -342,12 +357,7 @@ static void round_trip(report& r, C const& chk, Back&& make_back, std::string co
         if (!d.empty()) d = "result " + std::to_string(i) + ": " + d;
     }
     if (d.empty()) d = diff_extra(chk, chk, back);
-    if (d.empty())
-    {
-        auto g1 = chk.generator(), g2 = back.generator();
-        if (!(g1 == g2)) d = "generator";
-        for (int k = 0; d.empty() && k != 32; ++k) if (g1() != g2()) d = "generator output";
-    }
+    if (d.empty()) d = diff_generator(chk, back, 0);
     if (d.empty())
     {
         std::ostringstream again;
@@ -420,6 +430,9 @@ static void structure(report& r)
             for (sz k = 0; k != s.nres; ++k)
                 chk.add(hep::plain_result<T>(make_dists<T>(s.ndist, s.bx, s.by, names[s.name], cnt), cnt, cnt / 2, cnt / 3, T(1) / T(3) + T(k), T(2) / T(7)), next_gen());
             round_trip(r, chk, [](std::istream& in) { return hep::make_plain_chkpt<T, E>(in); }, base + " plain" + cfg);
+            // the same checkpoint as its base type (no generators: the text ends with the last result)
+            if (std::is_same<E, std::mt19937>::value)
+                round_trip(r, hep::plain_chkpt<T>(static_cast<hep::plain_chkpt<T> const&>(chk)), [](std::istream& in) { return hep::plain_chkpt<T>(in); }, base + " plain" + cfg + " base-type");
             if (s.ndist) r.distinct(vf::hash_str(base + " plain" + cfg));
         }
         if (r.want(base + " vegas" + cfg))
@@ -434,6 +447,8 @@ static void structure(report& r)
                 chk.add(hep::vegas_result<T>(hep::plain_result<T>(make_dists<T>(s.ndist, s.bx, s.by, names[s.name], cnt), cnt, cnt / 2, cnt / 3, T(1) / T(3), T(2) / T(7)), pdf, adj), next_gen());
             }
             round_trip(r, chk, [](std::istream& in) { return hep::make_vegas_chkpt<T, E>(in); }, base + " vegas" + cfg);
+            if (std::is_same<E, std::mt19937>::value)
+                round_trip(r, hep::vegas_chkpt<T>(static_cast<hep::vegas_chkpt<T> const&>(chk)), [](std::istream& in) { return hep::vegas_chkpt<T>(in); }, base + " vegas" + cfg + " base-type");
             r.distinct(vf::hash_str(base + " vegas" + cfg));
         }
         if (r.want(base + " multi_channel" + cfg))
@@ -455,6 +470,8 @@ static void structure(report& r)
                 chk.add(hep::multi_channel_result<T>(hep::plain_result<T>(make_dists<T>(s.ndist, s.bx, s.by, names[s.name], cnt), cnt, cnt / 2, cnt / 3, T(1) / T(3), T(2) / T(7)), adj, cw), next_gen());
             }
             round_trip(r, chk, [](std::istream& in) { return hep::make_multi_channel_chkpt<T, E>(in); }, base + " multi_channel" + cfg);
+            if (std::is_same<E, std::mt19937>::value)
+                round_trip(r, hep::multi_channel_chkpt<T>(static_cast<hep::multi_channel_chkpt<T> const&>(chk)), [](std::istream& in) { return hep::multi_channel_chkpt<T>(in); }, base + " multi_channel" + cfg + " base-type");
             r.distinct(vf::hash_str(base + " multi_channel" + cfg));
         }
     }
